@@ -1201,7 +1201,7 @@ static qtreetbl_obj_t *put_obj(qtreetbl_t *tbl, qtreetbl_obj_t *obj,
     int cmp = tbl->compare(name, namesize, obj->name, obj->namesize);
     if (cmp == 0) {  // existing key found
         void *copydata = qmemdup(data, datasize);
-        if (copydata != NULL) {
+        if (copydata != NULL || datasize == 0) {
             free(obj->data);
             obj->data = copydata;
             obj->datasize = datasize;
